@@ -256,7 +256,9 @@ class V:
         # zero-prefixed integers keep their value: they do not distinguish findings
         fs = [f for f in fs if not (f.endswith(':prefix0') and self.s.m.get(f.split(':')[0], {}).get('type') == 'bn')] or fs
         fl = '+'.join(fs) or 'none'
-        if fs and all(f.endswith(':v_addord') for f in fs):
+        if self.s.scheme == 'etrs' and fs and all(f.split(':')[0].rstrip('0123456789') in ('td', 'y', 'ry', 'pp') for f in fs):
+            fl = 'interpolation-inputs'  # one finding: the interpolation points and pp only enter an inequality
+        elif fs and all(f.endswith(':v_addord') for f in fs):
             fl = 'scalar+order'         # one finding per scheme, whichever components were shifted by the order
         self.out.violate(self.prop, '%s|%s|%s|%s' % (self.prop, self.s.scheme, fl, what),
                          '%s session %d (faults: %s): %s\n%s' % (self.s.scheme, self.s.sid, fl, detail, '\n'.join(self.s.lines)[:2500]))
